@@ -225,6 +225,10 @@ second red-team round; harness `c01stale.go`, schedule point `ActiveUser.CloseSe
 and the retirement are one step of the model (`Gen.Panel.closeSessionRetiresWhenEmpty`), and every admission that comes
 after the decision is told to look the user up again. -/
 
+/-- the admission that finds a retired record does not wait for something that may never come: either it waits for
+nothing, or for a channel that every record is made with and that the termination always closes, after the delete -/
+theorem gen_retry_wait : Gen.Panel.retryWaitIsSignalled = true := by decide
+
 theorem gen_close_retires : Gen.Panel.closeSessionRetiresWhenEmpty = true := by decide
 
 theorem c17_close_decision_blocks_admission (cfg : Panel.Cfg) (hc : cfg.checksRetired = true) (s : Panel.St) (rid sid : Nat)
